@@ -527,6 +527,53 @@ def utf8_advance_rule(rep, rid="C05.g"):
     rep.floor(rid, total, 14)
 
 
+def contradictory_declaration_rule(rep):
+    from ..engines import advance
+    rep.rule("C05.i", "an encoding declaration that names the other auto-sensed family is rejected: XMLReader::setEncoding interpreted "
+             "path-exhaustively for every endian-neutral UTF-16 / UCS-4 name it recognises and every auto-sensed encoding — it "
+             "returns false (the scanners then report ContradictoryEncoding) unless the reader was sensed in the same family, and "
+             "never false when it was; a document sensed as UTF-16 that declares UCS-4 (or the reverse) would otherwise be decoded "
+             "with the wrong unit size or silently accepted")
+    g = core.run_xa([os.path.join(core.REPO, "src/xercesc/internal/XMLReader.cpp")], st=r"^XMLReader::setEncoding$", flat=False)
+    body = g.st("XMLReader::setEncoding")["body"]
+    en = g.enums.get("XMLRecognizer::Encodings")
+    if not en:
+        raise AnalysisBroken("enum XMLRecognizer::Encodings not found")
+    vals = {n_: v for n_, v in en["items"] if n_ != "Encodings_Count"}
+    names = set()
+
+    def collect(n):
+        if isinstance(n, list):
+            if n and n[0] == "g" and re.search(r"fg(UTF16|UCS4)EncodingString\d*$", n[1]):
+                names.add(n[1])
+            for k in n:
+                collect(k)
+    collect(body)
+    fam_of_name = lambda nm: "UTF_16" if "UTF16" in nm else "UCS_4"
+    fam_of_enc = lambda e: e[:-1] if e[:-1] in ("UTF_16", "UCS_4") else None
+    n = 0
+    for nm in sorted(names):
+        for ename, ev_ in sorted(vals.items()):
+            def hook(x, st, it, nm=nm):
+                if x[1] == "XMLString::equals" and len(x[3]) == 2:
+                    gs = [a for a in x[3] if a[0] == "g"]
+                    if len(gs) == 1 and re.search(r"EncodingString\d*$", gs[0][1]):
+                        return 1 if gs[0][1] == nm else 0
+                return NotImplemented
+            it = advance.Interp(call_hook=hook)
+            outs = set()
+            for kind, s2 in it.run(body, advance.State({"f:XMLReader::fForcedEncoding": 0, "f:XMLReader::fEncoding": ev_})):
+                outs.add(s2.v.get("__ret"))
+            same = fam_of_name(nm) == fam_of_enc(ename)
+            ok = (outs <= {1} and outs) if same else outs == {0}
+            n += 1
+            rep.ob("C05.i", "%s/%s" % (nm.split("::")[-1], ename), bool(ok), "accepted" if same else "rejected" if ok else
+                   "XMLReader::setEncoding with the declared name %s on a reader sensed as %s returns %s; expected %s" %
+                   (nm.split("::")[-1], ename, sorted(outs, key=str), "true" if same else "false (contradictory declaration)"),
+                   "src/xercesc/internal/XMLReader.cpp")
+    rep.floor("C05.i", n, 12 * 9)
+
+
 def run(rep):
     tus = [os.path.join(core.REPO, t) for t in TUS]
     f = core.run_xa(tus, tables=r"^g(From|To)Table|^gUTF|^gFirstByteMark$|^XMLUni::fg\w*Encoding|^gEncodingNameMap$|^XMLRecognizer::fg",
@@ -548,6 +595,7 @@ def run(rep):
     C04.icu_flush_rule(rep, "C05.h")
     rep.units.update(os.path.relpath(t, core.REPO) for t in lf.tus)
     truncation_rule(rep)
+    contradictory_declaration_rule(rep)
     rep.undecided += ["the decoding/encoding code itself (second-byte ranges for E0/ED/F0/F4 leads, surrogate pairing, "
                       "block-boundary deferral, UTF-16/UCS-4 loops, ICU converters, BOM/declaration reconciliation): value-level, not applicable"]
     rep.assumptions += ["reference code pages: python's cp037/cp1140/cp1252 codecs (independent of the repository)",
